@@ -200,7 +200,16 @@ pub fn evaluate<const D: usize>(c: &Phys, ctx: &mut Ctx, stab: Option<f64>) -> R
     let a_term: f64 = (0..ne).map(|e| xs[e] * (c.kin.masses[e] * c.kin.masses[e] + c.kin.shifts[e].iter().map(|a| a * a).sum::<f64>())).sum();
     let cv = ((2.0 * a_term - v_or).max(v_or) / v_or).max(1.0);
     let tau_u = K * EPS * kappa;
-    let tau_v = K * EPS * kappa * cv;
+    // the external momenta and the shifts are f64 roundings of one ideal kinematic configuration: each momentum
+    // through a cut is uncertain by the conservation defect plus a few ulps of the largest momenta involved, which
+    // matters when a cut momentum is a small difference of large external momenta
+    let smax: f64 = c.kin.shifts.iter().map(|s| s.iter().map(|a| a.abs()).sum::<f64>()).fold(0.0, f64::max);
+    let delta = sym.defect + 8.0 * EPS * (sym.pabs + smax);
+    let kin_rel = {
+        let f = sym.f(&xs);
+        if f > 0.0 { 4.0 * sym.f_kin_err(&xs, delta) / f } else { 0.0 }
+    };
+    let tau_v = K * EPS * kappa * cv + kin_rel;
     Ok(Some(Eval { ne, nl, dod, tab, out, sym, omega_ref, j_ref, path, in_range, lambda_in_range, xs, x0, params_ok, lq, detq, invq, kappa, u_or, v_or, a_term, cv, tau_u, tau_v }))
 }
 
